@@ -23,6 +23,7 @@ mod c20;
 mod ctx;
 mod drv;
 mod gen;
+mod shapes;
 mod tune;
 mod xlate;
 
